@@ -232,12 +232,12 @@ Lemma present_lemma :
                     /\ contains_char N.eqb SEP (basename n) = false
        end.
 Proof.
-  intros filename guess mimetype charset download e t d. unfold sf_present.
-  destruct (match mimetype with MAuto => _ | MNone => _ | MGiven m => _ end) as [mt enc].
-  cbv zeta.
-  match goal with |- (if ?c then _ else _) = _ -> _ => destruct c eqn:C end; [discriminate|].
+  intros filename guess mimetype charset download e t d. unfold sf_present. cbv zeta.
+  destruct (bad_hval (snd (present_mime guess mimetype))
+            || bad_hval (present_ctype (fst (present_mime guess mimetype)) charset)
+            || bad_hval (present_cdisp filename download)) eqn:C; [discriminate|].
   intros [= <- <- <-]. apply orb_false_iff in C as [C Cd]. apply orb_false_iff in C as [Ce Ct].
   split.
-  - intros v [->|[H|H]]; [exact Ce| rewrite H in Ct; exact Ct | rewrite H in Cd; exact Cd].
+  - intros v [H|[H|H]]; [rewrite H in Ce; exact Ce | rewrite H in Ct; exact Ct | rewrite H in Cd; exact Cd].
   - destruct download; [reflexivity| |]; (split; [reflexivity|apply basename_aux_nosep; reflexivity]).
 Qed.
